@@ -286,3 +286,22 @@ def v_scale_by_hs(c, dims, ranged):
                 c.ensure_eq("prescribed_height_inside_the_range", s_hs(m, V2, pos), target)
             else:
                 c.ensure_eq("untouched_outside_the_range", V2.E(pos, i, j), V.E(pos, i, j))
+
+
+@contract(SA + "hs", props=["C20", "C10"], name="finite_non_negative", scenarios=[{"dims": ("pos", "freq", "dir")}, {"dims": ("freq",)}])
+def l_hs_finite(c, dims):
+    """for every finite non-negative spectrum on a valid grid the significant height is a real
+    number >= 0 (never NaN): the variance sum and the tail term are non-negative (WS.sum_nonneg)"""
+    c.derive_nonneg()
+    da = c.spectrum(dims, min_nf=2, min_nd=2)
+    V = View(da)
+    pos = c.position(V)
+    m = c.m
+    from contracts.specarray_stats import s_m0_tail
+
+    if m.symbolic:
+        c.lemma("variance_non_negative", s_m0_tail(m, V, pos, True) >= 0)
+        c.ensure("hs_non_negative", s_hs(m, V, pos) >= 0)
+    else:
+        r = float(c.value(da.spec.hs(), pos))
+        c.ensure("hs_non_negative", r == r and r >= 0)
